@@ -60,8 +60,8 @@ Definition live (len : nat) (t : thr) : Prop :=
 Definition tinv (len : nat) (t : thr) : Prop :=
   match t_st t with
   | Run => live len t
-  | Fin => True
-  | Err e => e = ESchema
+  | Fin => t_conn t = None
+  | Err e => e = ESchema /\ t_conn t = None
   end.
 
 Definition inv (c : cfg) : Prop :=
@@ -117,7 +117,7 @@ Definition exec_post (c : cfg) (t : thr) (s : stmt) (k' : prog) (a : mode) (r : 
            ((r_out r = OBlocked /\ has_mode (r_thr r) a /\ t_k (r_thr r) = IS s :: k') \/
             (r_out r <> OBlocked /\ has_mode (r_thr r) (trm s a) /\ t_k (r_thr r) = k'))
   | Fin => False
-  | Err e => e = ESchema
+  | Err e => e = ESchema /\ t_conn (r_thr r) = None
   end.
 
 Ltac brk :=
@@ -289,7 +289,7 @@ Proof.
   fold c in Hnn, Hp, Hv, Hts, G2, G3.
   split; [exact Hv|]. split; [exact G2|]. split; [exact G3|].
   intros t Hin e He. rewrite Forall_forall in Hts. specialize (Hts t Hin). unfold tinv in Hts.
-  rewrite He in Hts. exact Hts.
+  rewrite He in Hts. exact (proj1 Hts).
 Qed.
 
 Lemma side_ok_head : side_ok prog_head = true.
